@@ -114,12 +114,14 @@ CHECKS = {
         design='Appendix B (DNS)', note=CLS_NOTE),
     'C09': dict(
         technique='Lean 4 proof that the opportunistic-TLS message models (MySQL, RDP TPKT/COTP/negotiation, OpenVPN, PostgreSQL, LDAP framing) compose to spec-level encoders and parse back with the wire message type + correspondence + independent Python encoders',
-        text=("51 theorems (CpProps/C09.lean): per message class compose = the layout written from the protocol documents in "
-              "CpSpec/Opp.lean (little-endian MySQL fields, split capability flags, null-terminated strings, 3-byte length; TPKT "
-              "length incl. header; X.224 CR/CC with negotiation request/response; OpenVPN opcode/key-id byte, session ids, "
-              "packet-id arrays, 2-byte TCP length; PostgreSQL SSLRequest), round trip with any suffix, and the parsed message "
-              "type is the type on the wire (a confirm is never returned as a request). LDAP goes through asn1crypto: framing "
-              "and result only, by correspondence. Known deviations pinned by the repository tests are known findings."),
+        text=("56 theorems (CpProps/C09.lean): per message class compose = the layout written from the protocol documents in "
+              "CpSpec/Opp.lean (little-endian MySQL fields, split capability flags, null-terminated strings, 3-byte length; the "
+              "HandshakeV10 auth-plugin-data part 2 rule MAX(13, len-8) for all three greeting kinds - repaired in /repo; TPKT "
+              "length incl. header; X.224 CR/CC with negotiation request/response, the zero protocol value normalised - repaired; "
+              "OpenVPN opcode/key-id byte, session ids, packet-id arrays, 2-byte TCP length; PostgreSQL SSLRequest), round trip with "
+              "any suffix, and the parsed message type is the type on the wire (a confirm is never returned as a request). LDAP goes "
+              "through asn1crypto: framing and result only, on the implementation. The one deviation left is the X.224 reference "
+              "order, pinned by the repository tests (known finding, visible false statement with witness)."),
         design='Appendix B (OPP)', note=CLS_NOTE),
     'C14': dict(
         technique='Lean 4 proof over a model of the serialisation walk (PyVal -> JSON / Markdown): well-formedness, determinism and faithfulness by structural induction + correspondence on values harvested from the real objects + json.loads / determinism oracles on the real code',
